@@ -273,6 +273,8 @@ def unit_excel_workbooks():
                 yield [["c"] * 16385]
                 # a refused row in the middle leaves no trace: the rows accepted before and after it read back as written
                 yield "refusals", [["a1", "b1", "c1"], ["a2", "x" * 40000, "c2"], ["a3", "b3", "c3"], ["a4", "caf\udce9", "c4"], ["a5", "b5", "c5"]]
+                # items that are no strings and cannot be stored as a number (nan, a number beyond float, a list, None), and text xlsxwriter would take for rich text markup
+                yield "refusals", [["a1", "b1", "c1"], ["a2", float("nan"), "c2"], ["a3", 10 ** 400, "c3"], ["a4", "<r>hello</r>", "c4"], ["a5", "b5", "c5"], ["a6", [1], "c6"], ["a7", None, "c7"], ["a8", "<r>&</r>", "c8"], ["a9", "b9", "c9"]]
             def rt_check(table):
                 from cutplace import errors
                 n[0] += 1; path = os.path.join(tmp, "r%d.xlsx" % n[0])
@@ -284,7 +286,8 @@ def unit_excel_workbooks():
                             for r_ in table[1]:
                                 try: w.write_row(r_); kept.append(r_)
                                 except errors.DataFormatError: pass
-                            if len(kept) != 3: return {"expected": "rows 2 and 4 refused, 3 rows kept", "observed": kept}
+                                except Exception as e_: return {"expected": "row %r written or refused with a DataFormatError" % (r_,), "observed": "%s: %s" % (type(e_).__name__, e_)}
+                            if len(kept) != 3: return {"expected": "only rows 1, 3 (or 5) and the last kept", "observed": kept}
                             table = kept
                         else:
                             for r_ in table: w.write_row(r_)
